@@ -7,7 +7,7 @@
    answering everything, reconnect, 40 polls) with an I/O watchdog. *)
 From Coq Require Import List NArith.
 From Minimq Require Import Bytes Varint Utf8 Props Ser De Reader Arena Core Machine.
-From Minimq Require Import Status Progress.
+From Minimq Require Import Status Progress WireInv Wire Measure.
 Import ListNotations.
 Open Scope N_scope.
 
@@ -31,8 +31,36 @@ Proof. exact complete_entry_is_flushed_next. Qed.
 Theorem C16_flushed_control_leaves : forall o a o', flush_control o a = (o', true) -> glen (ob_ctl o') < glen (ob_ctl o).
 Proof. exact flushed_control_leaves. Qed.
 
+(* a weight on the three queues — per entry: 2 + unwritten bytes while being written, 1 while awaiting its flush,
+   0 once sent — that every engine step strictly decreases: between two enqueues, within one connection, the engine
+   performs at most `work` steps, and a packet is never written for ever or twice *)
+Theorem C16_write_step_decreases_work : forall s st p bs w len n,
+  WInv s -> next_step (s_ob s) = Some st -> prepare_step s st = PWrite p bs w len -> 1 <= n ->
+  work (s_ob (fst (set_written s p (w + n) len))) < work (s_ob s).
+Proof. exact write_step_decreases. Qed.
+
+Theorem C16_flush_step_decreases_work : forall s st p now,
+  WInv s -> next_step (s_ob s) = Some st -> prepare_step s st = PFlush p ->
+  work (s_ob (fst (complete_flush s p now))) < work (s_ob s).
+Proof. exact flush_step_decreases. Qed.
+
+(* the machine: whenever an engine step reports progress the work of the session has strictly decreased *)
+Theorem C16_progress_decreases_work : forall st now w w',
+  WInv (w_sess w) -> next_step (s_ob (w_sess w)) = Some st ->
+  perform_outbound_step st now w = (w', ODone true) ->
+  work (s_ob (w_sess w')) < work (s_ob (w_sess w)).
+Proof. exact progress_decreases_work. Qed.
+
+(* the invariant WInv holds in every reachable world *)
+Theorem C16_reachable_invariant : forall c, WInv (w_sess (Run.run_case c)).
+Proof. exact reachable_WInv. Qed.
+
 Print Assumptions C16_poll_never_returns_idle.
 Print Assumptions C16_sent_entries_not_resent.
 Print Assumptions C16_write_step_advances.
 Print Assumptions C16_complete_entry_is_flushed_next.
 Print Assumptions C16_flushed_control_leaves.
+Print Assumptions C16_write_step_decreases_work.
+Print Assumptions C16_flush_step_decreases_work.
+Print Assumptions C16_progress_decreases_work.
+Print Assumptions C16_reachable_invariant.
